@@ -263,5 +263,29 @@ def st_case(draw):
     return {"doc": {"version": v, "lines": [x.plain() for x in m.recs]}, "vlevel": r.randrange(4), "calls": calls}
 
 
+GROUP_CALLS = ["captured_path", "captured_parts", "induced_set", "induced_parts", "group_items", "str", "eq", "clone",
+               "edge_ends", "edge_names", "edge_other", "edge_type", "seg_collections", "seg_neighbours", "gfa_str",
+               "gfa_validate", "gfa_components", "gfa_collections", "edge_gfa2_props", "aln_complement"]
+
+
+@st.composite
+def st_group_case(draw):
+    """States built around resolvable ordered groups (planted walks of C17) and sets."""
+    from . import c17
+    r = draw(st.randoms(use_true_random=False))
+    segs, slen, lines, edges, pg, walk = c17.build_paths_case(r)
+    groups = {}
+    items, _el = c17.derive_items(r, pg, walk, segs, True, groups, lines)
+    lines.append(["O", ["pp", " ".join(items)], []])
+    if gen.chance(r, 0.5):
+        lines.append(["O", ["rr", "pp-"], []])
+    lines.append(["U", ["uu", " ".join([gen.choice(r, segs)] + [gen.choice(r, sorted(edges) + ["pp"]) for _ in range(r.randint(0, 2))])], []])
+    n = r.randint(3, 20)
+    calls = [[gen.choice(r, GROUP_CALLS), r.randrange(30), r.randrange(30), r.randrange(8)] for _ in range(n)]
+    return {"doc": {"version": "gfa2", "lines": lines}, "vlevel": r.randrange(4), "calls": calls}
+
+
 def parts(tier):
-    return [Part("purity", prop, strategy=st_case(), n=200 if tier == "quick" else 1500, quick_shards=4)]
+    q = tier == "quick"
+    return [Part("purity", prop, strategy=st_case(), n=200 if q else 1500, quick_shards=4),
+            Part("purity-groups", prop, strategy=st_group_case(), n=150 if q else 1000, quick_shards=2)]
